@@ -1,4 +1,4 @@
-import Proofs.SubmitReach
+import Proofs.SubmitCrash
 
 /-!
 # C08 — the pending-submission limit throttles but never deadlocks block production
@@ -27,20 +27,21 @@ theorem refused_step_is_noop (c : Cfg) (n : Node) (r : SeqResp) (e : ExecResp) (
     publish c n r e = (n, [], .refused) := by
   unfold publish; rw [if_pos h]
 
-/-- **What the counters count** (with the soundness of the watermark, C06), **for every initial height ≥ 1**.  Along
-every interleaving of production, header submission, data submission (any DA answers), inclusion passes and restarts
-(clean, or a crash between two actions) from a fresh start: both watermarks lie in `[initialHeight − 1, chain height]`
-(`NewManager` starts them at `initialHeight − 1`: heights below the initial height do not exist and are not counted);
-every committed height `initialHeight ≤ h ≤ hdrWm` is a stored block whose header blob the DA double holds; and every
-height of `(hdrWm, height]` is a committed block; every committed height `initialHeight ≤ h ≤ dataWm` is an empty block
-or a block whose signed data the DA double holds.  Hence `height − hdrWm` is exactly the number of committed headers the
-DA layer has not yet acknowledged, `height − dataWm` the number of committed blocks the data loop has not yet passed
-(non-empty ones waiting for acceptance, and the empty ones among and after them — `C08_counters_clear`), it is at most the number `height − (initialHeight − 1)` of committed blocks — and
-when production is refused, that number, or the corresponding data counter, has reached the limit.
-(Until /repo 6924f89 the counters of a chain with initial height `I > 1` started at `I − 1` "pending" blocks that do not
-exist — finding `C08/refuses/initial-height-counted-as-pending`, fixed — and this theorem needed `initialHeight = 1`.) -/
-theorem C08_refusal_counts_unacknowledged (c : Cfg) (h1 : 1 ≤ c.initialHeight) (acts : List ActR) :
-    let a := runR c (freshA c) acts
+/-- **What the counters count**, for every initial height ≥ 1, along every history (production, submission ticks with any
+DA answers, inclusion passes, clean restarts, crashes between two actions and after any number of the durable writes of
+the last action) from a fresh start: both watermarks lie in `[initialHeight − 1, chain height]`; every committed height
+`initialHeight ≤ h ≤ hdrWm` is a stored block whose header blob the DA double holds; every height of `(hdrWm, height]` is a
+committed block; every committed height `initialHeight ≤ h ≤ dataWm` is an empty block or a block whose signed data the DA
+double holds; both counters are at most the number of committed blocks; a refusal means a counter reached the limit.
+So `height − hdrWm` is the number of committed blocks **above the header watermark** and `height − dataWm` the number
+above the data watermark.  That a height above a watermark was *not acknowledged* is the loop-level theorem
+`Spec.C06.C06_acknowledged_at_most_watermark` (every acknowledged item is at or below the watermark); it is not restated
+here height by height because the acknowledged set is kept by hash (`hMarks`) and only in memory.  The data counter
+counts empty blocks too: `C08_refuses_only_while_waiting_fails`.
+(Until /repo 6924f89 the counters of a chain with initial height `I > 1` started at `I − 1`: finding
+`C08/refuses/initial-height-counted-as-pending`, fixed.) -/
+theorem C08_refusal_counts_blocks_above_watermarks (c : Cfg) (h1 : 1 ≤ c.initialHeight) (acts : List ActR) :
+    let a := (runR c (freshC c) acts).a
     (c.initialHeight - 1 ≤ a.n.hdrWm ∧ a.n.hdrWm ≤ a.n.store.height) ∧
     (c.initialHeight - 1 ≤ a.n.dataWm ∧ a.n.dataWm ≤ a.n.store.height) ∧
     (∀ h, c.initialHeight ≤ h → h ≤ a.n.hdrWm → ∃ b dh, a.n.store.getBlock h = some b ∧ b.sh.hdr.height = h ∧
@@ -54,7 +55,7 @@ theorem C08_refusal_counts_unacknowledged (c : Cfg) (h1 : 1 ≤ c.initialHeight)
     (pendingRefuses c a.n = true → c.maxPending ≠ 0 ∧
       (a.n.store.height - a.n.hdrWm ≥ c.maxPending ∨ a.n.store.height - a.n.dataWm ≥ c.maxPending)) := by
   intro a
-  have r : R c a := (R_fresh c h1).run acts
+  have r : R c a := ((CI_fresh c h1).run acts).r
   have l1 := r.low
   have l2 := r.dlow
   have hok := hdrOK_of_inv r.pinv r.low
@@ -80,6 +81,66 @@ theorem C08_fresh_node_not_refused (c : Cfg) (h1 : 1 ≤ c.initialHeight) :
   · rw [e1, e2]
     have : ¬ (0 ≥ c.maxPending) := by omega
     simp [this]
+
+/-! ## "only while that many blocks are genuinely waiting": the empty blocks above the data watermark -/
+
+/-- the committed blocks above the data watermark that carry transactions: the blocks whose signed data the DA layer has
+not yet acknowledged to the node (assumption of this property, `props/C08.json`: "genuinely still waiting" is read as "not
+yet acknowledged" — after a lost acknowledgement or a crash that dropped the record the node cannot know better) -/
+def nonEmptyAbove (a : ANode) : Nat :=
+  ((List.range (a.n.store.height - a.n.dataWm)).filter fun i =>
+    match a.n.store.getBlock (a.n.dataWm + 1 + i) with
+    | some b => !b.data.txs.isEmpty
+    | none => false).length
+
+/-- full statement, by the letter: production is refused only while at least `maxPending` committed blocks are waiting —
+headers not yet acknowledged, or non-empty data not yet acknowledged -/
+def C08_refuses_only_while_waiting_full : Prop :=
+  ∀ (c : Cfg) (acts : List ActR), 1 ≤ c.initialHeight →
+    pendingRefuses c (runR c (freshC c) acts).a.n = true →
+    (runR c (freshC c) acts).a.n.store.height - (runR c (freshC c) acts).a.n.hdrWm ≥ c.maxPending ∨
+    nonEmptyAbove (runR c (freshC c) acts).a ≥ c.maxPending
+
+def wCfg : Cfg := { chainId := "w", initialHeight := 1, genesisTime := 100, proposerAddr := [1], key := 1,
+                    signerAddr := [1], maxPending := 3 }
+/-- three empty blocks, every header acknowledged, no data tick yet -/
+def wActs : List ActR :=
+  [.act (.produce (.batch [] 150 []) .ok), .act (.produce (.batch [] 200 []) .ok), .act (.produce (.batch [] 300 []) .ok),
+   .act (.subH [])]
+
+/-- **The full statement is false of the current code** (recorded finding
+`C08/refuses/empty-blocks-counted-until-the-data-loop-passes-them`, kernel-checked): limit 3, three empty blocks, all
+headers acknowledged — nothing is waiting for the DA layer, yet production is refused, because the data counter
+`height − dataWm` counts the empty blocks until the data loop has passed over them (the next data tick: after /repo 5533199
+this is transient, `C08_counters_clear`; before it was permanent). -/
+theorem C08_refuses_only_while_waiting_fails : ¬ C08_refuses_only_while_waiting_full := by
+  intro h
+  have hw : pendingRefuses wCfg (runR wCfg (freshC wCfg) wActs).a.n = true ∧
+      (runR wCfg (freshC wCfg) wActs).a.n.store.height - (runR wCfg (freshC wCfg) wActs).a.n.hdrWm = 0 ∧
+      nonEmptyAbove (runR wCfg (freshC wCfg) wActs).a = 0 := by decide +kernel
+  have := h wCfg wActs (by decide) hw.1
+  rw [hw.2.1, hw.2.2] at this
+  have h3 : wCfg.maxPending = 3 := rfl
+  omega
+
+/-- **Partial statement** (everything except the refuted case): whenever no empty block lies above the data watermark, a
+refusal means that `maxPending` headers or `maxPending` non-empty data blocks are not yet acknowledged -/
+theorem C08_refuses_only_while_waiting_partial (c : Cfg) (a : ANode)
+    (hne : ∀ h, a.n.dataWm < h → h ≤ a.n.store.height → ∃ b, a.n.store.getBlock h = some b ∧ b.data.txs ≠ [])
+    (hr : pendingRefuses c a.n = true) :
+    a.n.store.height - a.n.hdrWm ≥ c.maxPending ∨ nonEmptyAbove a ≥ c.maxPending := by
+  have hall : nonEmptyAbove a = a.n.store.height - a.n.dataWm := by
+    unfold nonEmptyAbove
+    rw [List.filter_eq_self.mpr, List.length_range]
+    intro i hi
+    rw [List.mem_range] at hi
+    obtain ⟨b, hb, hn⟩ := hne (a.n.dataWm + 1 + i) (by omega) (by omega)
+    rw [hb]
+    cases ht : b.data.txs with
+    | nil => exact absurd ht hn
+    | cons _ _ => simp [ht]
+  rw [hall]
+  exact (refusal_needs_limit c a.n hr).2
 
 /-! ## liveness, header half -/
 
@@ -116,13 +177,13 @@ theorem C08_counters_clear (c : Cfg) (h1 : 1 ≤ c.initialHeight) (acts : List A
     (fh th fd td s2 : List DAAns)
     (hth : th.headD (.ok none) = .ok none) (hnh : DAAns.canceled ∉ fh) (hfh : fh.length < maxSubmitAttempts)
     (htd : td.headD (.ok none) = .ok none) (hnd : DAAns.canceled ∉ fd) (hfd : fd.length < maxSubmitAttempts) :
-    let a := runR c (freshA c) acts
+    let a := (runR c (freshC c) acts).a
     let a3 := runOps a [.subH (fh ++ th), .subD (fd ++ td), .subD s2]
     a3.n.store.height = a.n.store.height ∧
     a3.n.store.height - a3.n.hdrWm = 0 ∧ a3.n.store.height - a3.n.dataWm = 0 ∧
     pendingRefuses c a3.n = false := by
   intro a a3
-  have r : R c a := (R_fresh c h1).run acts
+  have r : R c a := ((CI_fresh c h1).run acts).r
   have r1 : R c (headersIter a (fh ++ th)).1 := r.step (.subH (fh ++ th))
   have hh := (headersIter_reaches a fh th hth hnh hfh (hdrOK_of_inv r.pinv r.low) r.le).1
   obtain ⟨_, i1, _⟩ := headersIter_iter a (fh ++ th)
